@@ -24,8 +24,9 @@ RULE = ('texts: (a) ALL strings up to length 8 (quick; 87,381 strings) / 10 (tho
 ASSUMPTIONS = ['texts containing NUL are outside the domain (the code area is NUL-terminated/stripped text) and are '
                'not generated; texts that themselves end with the literal 0.1.7 compatibility suffix are excluded '
                '(indistinguishable from an injected suffix); both are counted',
-               'overlapping back-references (offset < length) are generated and counted but picotool/reference '
-               'agreement is not asserted for them (the property only promises offsets inside produced output)',
+               'overlapping back-references (offset < length: the source runs into the bytes the block itself produces, '
+               'as in every LZ77 format - a run of one character is offset 1) are well formed: the offset points inside '
+               'the output produced so far; they are generated and asserted like any other stream',
                ':c: format as described in P8PNGFileFormat: 0x00 nn literal, 0x01-0x3b table index, '
                '0x3c-0xff block with offset (b-0x3c)*16+(n&15), length (n>>4)+2']
 LEVEL_TEXT = ('Exploration with an exhaustive core (all short strings over the 4-symbol alphabet the property '
@@ -369,15 +370,12 @@ def part_streams(ctx):
         if domain_excluded(ref):
             ctx.stats.exclude(domain_excluded(ref))
             return
-        if overlapping:
-            ctx.stats.count('stream_overlapping_not_asserted')
-            return
         check_stream(ops)
         nblk = sum(1 for o in ops if o[0] == 'blk')
         ctx.stats.case(reffmt.encode_stream(ops), nblk >= 1,
                        {'stream_ops': [list(o) if o[0] == 'blk' else [o[0], chr(o[1]) if 32 <= o[1] < 127 else o[1]]
                                        for o in ops[:10]], 'n_ops': len(ops)},
-                       ['stream'] + (['stream_far_offset'] if far else []))
+                       ['stream'] + (['stream_far_offset'] if far else []) + (['stream_overlapping_reference'] if overlapping else []))
     ctx.hyp('streams', st.binary(min_size=260, max_size=260), body, max_examples=800 if ctx.quick else 6000)
 
 
@@ -431,7 +429,7 @@ def vacuity(total, tier):
     if total.classes.get('short', 0) != want_short:
         msgs.append('short strings enumerated %d, expected %d' % (total.classes.get('short', 0), want_short))
     for lab in ('has_block', 'has_escape', 'far_repeat', 'near_repeat', 'text_update60', 'stream',
-                'stream_far_offset', 'stored_compressed', 'area_edge', 'long_text'):
+                'stream_far_offset', 'stream_overlapping_reference', 'stored_compressed', 'area_edge', 'long_text'):
         if total.classes.get(lab, 0) < 2:
             msgs.append('class %s seen %d times' % (lab, total.classes.get(lab, 0)))
     return msgs
